@@ -119,7 +119,7 @@ Proof.
   unfold num_ty_b, num_ty, tint, tfloat. intros H. apply orb_prop in H as [H|H]; destruct t as [[[]| |]| | |]; cbn in H; try discriminate; auto.
 Qed.
 
-Definition ssimple (s : stmt) : bool :=
+Definition ssimple0 (s : stmt) : bool :=
   match s with
   | SDecl t _ None => num_ty_b t
   | SDecl t _ (Some e) => num_ty_b t && spure e
@@ -223,8 +223,8 @@ Section Stage2S.
     - intros f Hin. destruct (Hf f Hin) as ((c & Hc & Hs) & Hn). split; [|exact Hn]. cbn [teval]. rewrite Hc, Hs. reflexivity.
   Qed.
 
-  Theorem simple_stmt_preserved : forall s ts env env' fuel st fl st1 locals V A vs,
-    ssimple s = true -> elab_stmt G env s = EOk (ts, env') -> stok ts = true -> (forall te, In te (stexprs ts) -> lit_ok te) -> fresh_decl s ->
+  Theorem simple_stmt_preserved_0 : forall s ts env env' fuel st fl st1 locals V A vs,
+    ssimple0 s = true -> elab_stmt G env s = EOk (ts, env') -> stok ts = true -> (forall te, In te (stexprs ts) -> lit_ok te) -> fresh_decl s ->
     exec M fuel s st = RefSem.ROk (fl, st1) -> Agree env st locals V A vs ->
     fl = ONormal /\ simple ts = true /\
     exists locals' V' A' vs', texec structs gl args cs locals V A vs ts = Some (locals', V', A', vs') /\ Agree env' st1 locals' V' A' vs'.
@@ -235,7 +235,7 @@ Section Stage2S.
     - (* declaration *)
       rewrite exec_decl_unfold in Hex. cbn [elab_stmt] in He. cbn [fresh_decl] in Hfr. destruct Hfr as [Hg Ha].
       destruct init as [e|].
-      + cbn [ssimple] in Hs. apply andb_prop in Hs as [Hnt Hp]. pose proof (num_ty_b_sound _ Hnt) as Hnum.
+      + cbn [ssimple0] in Hs. apply andb_prop in Hs as [Hnt Hp]. pose proof (num_ty_b_sound _ Hnt) as Hnum.
         destruct (num_ty_cases _ Hnum) as (c & -> & Hc).
         cbn [elab_opt ebind] in He. destruct (elab G COn (tdeclare env x (TPrim (PScalar c))) e) as [te| |] eqn:Ee; cbn [ebind] in He; try discriminate.
         destruct (ty_eqb (type_of te) (TPrim (PScalar c))) eqn:Ety; [|discriminate]. inversion He; subst ts env'; clear He.
@@ -253,13 +253,13 @@ Section Stage2S.
         * apply tlookup_tdeclare_same.
         * rewrite <- (ty_eqb_prim_r _ _ Ety). exact Hwt.
         * unfold store_var. rewrite Hg, Ha. cbn [existsb]. rewrite String.eqb_refl. reflexivity.
-      + cbn [ssimple] in Hs. pose proof (num_ty_b_sound _ Hs) as Hnum. destruct (num_ty_cases _ Hnum) as (c & -> & Hc).
+      + cbn [ssimple0] in Hs. pose proof (num_ty_b_sound _ Hs) as Hnum. destruct (num_ty_cases _ Hnum) as (c & -> & Hc).
         cbn [elab_opt ebind] in He. inversion He; subst ts env'; clear He. cbn zeta in Hex. inversion Hex; subst fl st1; clear Hex.
         split; [reflexivity|]. split; [reflexivity|]. cbn [texec]. eexists _, _, _, _. split; [reflexivity|].
         apply Agree_declare; assumption.
     - (* assignment *)
       destruct e as [| | | |o l r| | | | | |]; try discriminate. destruct o; try discriminate. destruct l as [| |x| | | | | | | |]; try discriminate.
-      cbn [ssimple] in Hs. rewrite exec_expr_unfold in Hex. cbn [elab_stmt ebind] in He.
+      cbn [ssimple0] in Hs. rewrite exec_expr_unfold in Hex. cbn [elab_stmt ebind] in He.
       destruct (elab G COn env (EAssign AAssign (EVar x) r)) as [e'| |] eqn:Ee; cbn [ebind] in He; try discriminate. inversion He; subst ts env'; clear He.
       cbn [elab kids ebind aop_op] in Ee. destruct (tlookup env x) as [t|] eqn:Etx; cbn [ebind] in Ee; try discriminate.
       destruct (elab G COn env r) as [te| |] eqn:Er; cbn [ebind] in Ee; try discriminate.
@@ -282,6 +282,64 @@ Section Stage2S.
 End Stage2S.
 
 (** ** bodies: simple statements, then [return e] *)
+(** ** compound assignment: [x op= e] is [x = x op e] for the front end and for the reference semantics *)
+Definition desugar (s : stmt) : stmt :=
+  match s with
+  | SExpr (EAssign o (EVar x) r) => match aop_binop o with Some bo => SExpr (EAssign AAssign (EVar x) (EBin bo (EVar x) r)) | None => s end
+  | _ => s
+  end.
+Definition ssimple (s : stmt) : bool := ssimple0 (desugar s).
+
+Lemma desugar_elab G env s : elab_stmt G env s = elab_stmt G env (desugar s).
+Proof.
+  destruct s as [| e | | | | | | | |]; try reflexivity. destruct e as [| | | |o l r| | | | | |]; try reflexivity. destruct l as [| |x| | | | | | | |]; try reflexivity.
+  destruct o; try reflexivity; cbn [desugar aop_binop elab_stmt]; f_equal;
+    cbn [elab kids ebind aop_op self_on]; destruct (tlookup env x) as [t|]; cbn [ebind]; try reflexivity;
+    destruct (elab G COn env r) as [r0| |]; cbn [ebind]; try reflexivity;
+    cbn [type_of]; destruct t as [pl| | |]; try reflexivity; destruct (type_of r0) as [pr| | |]; try reflexivity;
+    destruct (resolve_binop _ pl pr); try reflexivity; destruct (is_scalar pl && is_scalar pr); reflexivity.
+Qed.
+
+Lemma eval_compound M fu o l r st bo : aop_binop o = Some bo -> eval M (S fu) (EAssign o l r) st = eval M fu (EAssign AAssign l (EBin bo l r)) st.
+Proof. destruct o; cbn [aop_binop]; intros H; inversion H; reflexivity. Qed.
+
+Lemma desugar_exec M s : forall fuel st r, exec M fuel s st = RefSem.ROk r -> exists fuel', exec M fuel' (desugar s) st = RefSem.ROk r.
+Proof.
+  intros fuel st r H. destruct s as [| e | | | | | | | |]; try (exists fuel; exact H). destruct e as [| | | |o l r0| | | | | |]; try (exists fuel; exact H).
+  destruct l as [| |x| | | | | | | |]; try (exists fuel; exact H). cbn [desugar]. destruct (aop_binop o) as [bo|] eqn:Eo; [|exists fuel; exact H].
+  destruct fuel as [|[|fu]]; try discriminate.
+  rewrite exec_expr_unfold in H. rewrite (eval_compound M fu o (EVar x) r0 st bo Eo) in H. exists (S fu). rewrite exec_expr_unfold. exact H.
+Qed.
+
+Lemma desugar_simple0 s : ssimple s = true -> ssimple0 (desugar s) = true.
+Proof. intros H; exact H. Qed.
+Lemma desugar_decl s : ssimple s = true -> (forall t x i, s = SDecl t x i -> desugar s = s).
+Proof. intros _ t x i ->. reflexivity. Qed.
+Lemma desugar_env_step env s : env_step env (desugar s) = env_step env s.
+Proof. destruct s as [| e | | | | | | | |]; try reflexivity. destruct e as [| | | |o l r| | | | | |]; try reflexivity. destruct l; try reflexivity. cbn. destruct (aop_binop o); reflexivity. Qed.
+
+Section Stage2W.
+  Variable M : module.
+  Variable G : genv.
+  Variable structs : list sdef.
+  Variable gl args : list string.
+  Variable cs : list (nat * irty * cval).
+
+  Lemma desugar_fresh s : fresh_decl gl args (desugar s) <-> fresh_decl gl args s.
+  Proof. destruct s as [| e | | | | | | | |]; try tauto. destruct e as [| | | |o l r| | | | | |]; try tauto. destruct l; try tauto. cbn. destruct (aop_binop o); cbn; tauto. Qed.
+
+  Theorem simple_stmt_preserved : forall s ts env env' fuel st fl st1 locals V A vs,
+    ssimple s = true -> elab_stmt G env s = EOk (ts, env') -> stok ts = true -> (forall te, In te (stexprs ts) -> lit_ok cs te) -> fresh_decl gl args s ->
+    exec M fuel s st = RefSem.ROk (fl, st1) -> Agree gl args env st locals V A vs ->
+    fl = ONormal /\ simple ts = true /\
+    exists locals' V' A' vs', texec structs gl args cs locals V A vs ts = Some (locals', V', A', vs') /\ Agree gl args env' st1 locals' V' A' vs'.
+  Proof.
+    intros s ts env env' fuel st fl st1 locals V A vs Hs He Hk Hlit Hfr Hex Hag.
+    rewrite desugar_elab in He. apply desugar_exec in Hex as [fuel' Hex]. apply desugar_fresh in Hfr.
+    exact (simple_stmt_preserved_0 M G structs gl args cs (desugar s) ts env env' fuel' st fl st1 locals V A vs Hs He Hk Hlit Hfr Hex Hag).
+  Qed.
+End Stage2W.
+
 Section Body.
   Variable M : module.
   Variable G : genv.
@@ -302,7 +360,7 @@ Section Body.
       destruct (IH env' e tb' Er) as (tl & te & env1 & -> & Hte & Hlen). exists (ts :: tl), te, env1. cbn. auto.
   Qed.
 
-  Lemma elab_stmt_env env s ts env' : ssimple s = true -> elab_stmt G env s = EOk (ts, env') -> env' = env_step env s.
+  Lemma elab_stmt_env_0 env s ts env' : ssimple0 s = true -> elab_stmt G env s = EOk (ts, env') -> env' = env_step env s.
   Proof.
     intros Hs He. destruct s as [t x init|e0| | | | | | | |]; try discriminate; cbn [elab_stmt env_step] in *.
     - destruct init as [e0|]; cbn [elab_opt ebind] in He.
@@ -310,6 +368,9 @@ Section Body.
       + inversion He; reflexivity.
     - destruct (elab G COn env e0) as [e'| |]; cbn [ebind] in He; try discriminate. inversion He; reflexivity.
   Qed.
+
+  Lemma elab_stmt_env env s ts env' : ssimple s = true -> elab_stmt G env s = EOk (ts, env') -> env' = env_step env s.
+  Proof. intros Hs He. rewrite desugar_elab in He. rewrite <- (desugar_env_step env s). exact (elab_stmt_env_0 env (desugar s) ts env' Hs He). Qed.
 
   Theorem simple_body_preserved : forall l env e tl te fuel st fl st1 locals V A vs,
     forallb ssimple l = true -> spure e = true ->
